@@ -255,10 +255,30 @@ func (s *state) runCase(e *entry, spec caseSpec) {
 			d, _ := s.build(e, dspec, "dirty", nil, true)
 			dirty = d.Interface()
 		}
+		// the original as it is before the copy is taken: copying must not write to it (a copy(*in, *out) with
+		// swapped arguments zeroes the original and yields a copy that is equal to what is left of it)
+		var before []dline
+		s.w.dump(orig, pathT{owner: e.name}, &before, 0)
 		var res any
 		panicked, msg := mon.Guard(func() { res = op.call(orig.Interface(), dirty) })
 		c.Eval(1)
 		copies++
+		if !panicked {
+			var after []dline
+			s.w.dump(orig, pathT{owner: e.name}, &after, 0)
+			if i := firstDiff(before, after); i >= 0 {
+				pt := pathT{owner: e.name}
+				if i < len(before) {
+					pt = before[i].pt
+				} else if i < len(after) {
+					pt = after[i].pt
+				}
+				c.Violation(pt.key("original-modified-by-copy"), det(map[string]any{"class": "original-modified-by-copy",
+					"original_before_the_copy": lineStr(before, i), "original_after_the_copy": lineStr(after, i), "shape": pop.shape.String()}))
+				c.Count("violating_observations", 1)
+				continue
+			}
+		}
 		if panicked {
 			c.Violation(e.name+"/<self>/"+op.name+"/panic", det(map[string]any{"panic": msg, "shape": pop.shape.String()}))
 			continue
